@@ -19,9 +19,11 @@ from pathlib import Path
 
 VERIF = Path(__file__).resolve().parent.parent
 SPEC = VERIF / "spec"
-EVID = VERIF / "evidence"
-REPLAYS = EVID / "replays"
 REPO = Path(os.environ.get("VERIF_REPO", "/repo"))
+# evidence is only written into /verif/evidence by runs against /repo itself; runs against a
+# scratch copy (tools/mutant.sh, tools/seeded.sh set VERIF_REPO) write next to that copy
+EVID = Path(os.environ.get("VERIF_EVIDENCE_DIR") or (VERIF / "evidence" if str(REPO) == "/repo" else REPO.parent / "evidence"))
+REPLAYS = EVID / "replays"
 GUARD = "WIKITEXTPROCESSOR_VERIF"
 
 # the checks run the working tree with hooks enabled
